@@ -19,6 +19,7 @@ import (
 	"math/big"
 	"os"
 	"path/filepath"
+	"runtime/debug"
 	"sort"
 	"strings"
 	"time"
@@ -131,6 +132,9 @@ func quantile(t *big.Float, n int64, a, b *big.Int, maxSteps int64) (int64, *big
 	if n <= 0 {
 		return 0, newf(), bfi(1), true
 	}
+	if t.Cmp(bfi(1)) >= 0 && a.Sign() > 0 { // only cdf(n) = 1 reaches 1 when p > 0
+		return n, cdfAt(n, a, b, min64(n-1, 0)), bfi(1), true
+	}
 	if a.Cmp(b) == 0 { // p = 1
 		if t.Sign() == 0 {
 			return 0, newf(), newf(), true
@@ -224,8 +228,12 @@ func oracleChoose(hb *big.Int, n int64, a, b *big.Int, jg int64, panicked bool) 
 	if jg < 0 || jg > n {
 		return fmt.Sprintf("seat count %d outside [0, stake=%d]", jg, n)
 	}
-	if a.Cmp(b) > 0 || a.Sign() < 0 {
-		return "" // no distribution to compare with
+	if a.Cmp(b) > 0 {
+		// repaired code: committee/total is clamped at 1, all of the stake is selected
+		if (hb.Sign() > 0 && jg != n) || (hb.Sign() == 0 && jg != 0) {
+			return fmt.Sprintf("committee exceeds the total stake and the seat count %d is not the whole stake %d", jg, n)
+		}
+		return ""
 	}
 	if hb.Cmp(maxHash) == 0 && a.Sign() == 0 {
 		return "" // p = 0 and the single hash 2^256-1: documented corner (returns the stake)
@@ -249,9 +257,13 @@ func oracleChoose(hb *big.Int, n int64, a, b *big.Int, jg int64, panicked bool) 
 
 // ---- Coq printing ----------------------------------------------------------
 
+// Coq Z literal; hexadecimal for big values (much cheaper to parse)
 func zb(x *big.Int) string {
 	if x.Sign() < 0 {
 		return "(" + x.String() + ")"
+	}
+	if x.BitLen() > 40 {
+		return "0x" + x.Text(16)
 	}
 	return x.String()
 }
@@ -259,7 +271,7 @@ func zi(x int64) string { return zb(big.NewInt(x)) }
 func qCoq(a, b *big.Int) string { return fmt.Sprintf("(%s # %s)", zb(a), b.String()) }
 // a byte string as one number: 1 followed by the bytes, base 256 (Model.bytes_key)
 func bytesCoq(b []byte) string {
-	return new(big.Int).SetBytes(append([]byte{1}, b...)).String()
+	return zb(new(big.Int).SetBytes(append([]byte{1}, b...)))
 }
 func tblCoq(t [][2]interface{}) string {
 	var xs []string
@@ -320,19 +332,19 @@ func prioSpec(h common.Hash, j int64) *big.Int {
 	return mx
 }
 
+// Keccak table for inputs h ++ suffix: (suffix, value) pairs
 func ktblFor(h common.Hash, upto int64) [][2]interface{} {
 	var t [][2]interface{}
+	add := func(suffix []byte) {
+		k := append(append([]byte{}, h[:]...), suffix...)
+		t = append(t, [2]interface{}{suffix, keccakInt(k)})
+	}
 	for i := int64(0); i <= upto; i++ {
-		k := append(append([]byte{}, h[:]...), minBE(i)...)
-		t = append(t, [2]interface{}{k, keccakInt(k)})
+		add(minBE(i))
 	}
 	// decoys: other encodings of i must not be what the model looks up
-	for _, i := range []int64{0, 1, 2} {
-		k := append(append([]byte{}, h[:]...), []byte{0, 0, 0, byte(i)}...)
-		t = append(t, [2]interface{}{k, keccakInt(k)})
-	}
-	k0 := append(append([]byte{}, h[:]...), 0)
-	t = append(t, [2]interface{}{k0, keccakInt(k0)})
+	add([]byte{0})
+	add([]byte{0, 0, 0, 1})
 	return t
 }
 
@@ -390,7 +402,7 @@ func callSortition(sk vrf.PrivateKey, seed common.Hash, index, role uint32, th u
 
 // can the Coq model evaluate this distribution quickly enough?
 func coqAffordable(n int64, b *big.Int) bool {
-	return n <= 320 && n*int64(b.BitLen()) <= 3600
+	return n <= 240 && n*int64(b.BitLen()) <= 2400
 }
 
 func run(rec *Rec, toCoq bool) outcome {
@@ -709,9 +721,16 @@ func runProtocol(rec *Rec, toCoq bool) outcome {
 			}
 			kt = ktblFor(common.Hash(pth), upto)
 		}
-		o.coq = fmt.Sprintf("CVerifyPrio %s %d %d %s %d %d %s %s %s %s %d", zb(hInt(vseed)), vindex, vrole, zb(hInt(vprio)), vsub, vth, zb(vstake), zb(vtotal), tblCoq(vt), tblCoq(kt), code)
+		o.coq = fmt.Sprintf("CVerifyPrio %s %d %d %s %d %d %s %s %s %s %s %d", zb(hInt(vseed)), vindex, vrole, zb(hInt(vprio)), vsub, vth, zb(vstake), zb(vtotal), tblCoq(vt), zb(new(big.Int).SetBytes(pth[:])), tblCoq(kt), code)
 	}
 	return o
+}
+
+func min64(a, b int64) int64 {
+	if a < b {
+		return a
+	}
+	return b
 }
 
 func absDiff(a, b int64) int64 {
@@ -748,9 +767,12 @@ var thresholds []uint64
 func smallStake(r *vf.Rng) int64 {
 	switch r.Intn(20) {
 	case 0:
-		return int64(1 + r.Intn(300))
+		if r.Chance(30) {
+			return int64(1 + r.Intn(240))
+		}
+		return int64(1 + r.Intn(120))
 	case 1, 2, 3:
-		return int64(1 + r.Intn(90))
+		return int64(1 + r.Intn(70))
 	case 4:
 		return 1
 	case 5:
@@ -947,7 +969,7 @@ func genRec(r *vf.Rng) *Rec {
 		}
 		return &Rec{Kind: "makem", Seed: hex32(seed), Role: vals[r.Intn(len(vals))], Index: vals[r.Intn(len(vals))]}
 	case k < 62:
-		j := int64(r.Heavy(100))
+		j := int64(r.Heavy(64))
 		if r.Chance(10) {
 			j = []int64{0, 1, 255, 256, 257}[r.Intn(5)]
 		}
@@ -1023,9 +1045,19 @@ func loadCorpus(dir string) []*Rec {
 	return out
 }
 
+// repaired reports whether the working tree's choose no longer panics when the
+// committee exceeds the total stake (and returns the whole stake instead).
+func repaired() bool {
+	h := hashOf(new(big.Int).Lsh(big.NewInt(1), 255))
+	j, panicked, _ := callChoose(h, 10, 1.5)
+	return !panicked && j == 10
+}
+
 func gen(seed uint64, n int, outDir, corpusDir string) {
 	r := vf.NewRng(seed)
 	res := vf.NewResult("C04", seed)
+	rep := repaired()
+	res.Extra["choose_clamps_committee_over_total"] = rep
 	var coqCases []string
 	distinct := map[string]bool{}
 	total := 0
@@ -1074,7 +1106,11 @@ func gen(seed uint64, n int, outDir, corpusDir string) {
 	var sb strings.Builder
 	sb.WriteString("From VF.C04 Require Import Model.\nLocal Open Scope Z_scope.\nDefinition cases : list case := [\n")
 	sb.WriteString(strings.Join(coqCases, ";\n"))
-	sb.WriteString("].\nDefinition M := Eval vm_compute in mismatches cases.\nPrint M.\n")
+	mm := "mismatches"
+	if rep {
+		mm = "mismatches_repaired"
+	}
+	sb.WriteString("].\nDefinition M := Eval vm_compute in " + mm + " cases.\nPrint M.\n")
 	vf.WriteFile(filepath.Join(outDir, "Cases.v"), sb.String())
 	res.Cases = len(coqCases)
 	res.Distinct = len(distinct)
@@ -1114,6 +1150,7 @@ func main() {
 	corpus := flag.String("corpus", "/verif/corpus/C04", "")
 	file := flag.String("file", "", "")
 	flag.Parse()
+	debug.SetGCPercent(1000)
 	thresholds = realThresholds()
 	params.InitNetworkId(params.NetworkIdForTestCase)
 	switch mode {
